@@ -19,7 +19,7 @@ def main():
     vcopy, wt, outp = sys.argv[1], sys.argv[2], sys.argv[3]
     env = dict(os.environ, VERIF_REPO=wt, CARGO_NET_OFFLINE="true")
     res = {}
-    seeds = sorted(os.listdir(os.path.join(vcopy, "seeded")))
+    seeds = sorted(x for x in os.listdir(os.path.join(vcopy, "seeded")) if os.path.isdir(os.path.join(vcopy, "seeded", x)))
     only = sys.argv[4:] or seeds
     for name in seeds:
         if name not in only:
